@@ -336,7 +336,7 @@ static int make_mip_unit(int ti, const int *pgnos, int npg, int hexpg)
 
 static void gen_small_network(struct vf_rng *r)
 {
-	struct { int pgno, nsub, sub[2], national, flof, nx26, x28; } pd[5];
+	struct { int pgno, nsub, sub[2], national, flof, nx26, x28; unsigned ctl; } pd[5];
 	int hex_pi = -1, hex_sent = 0, mip_done = 0, hex_after_mip = 0;
 	static const int rowpool[] = { 1, 2, 3, 4, 5, 10, 11, 22, 23, 24 };
 	int npages, nm, mags[3], i, j, ntx, clock = 43200, last_pg[8], rot, np = 0, chain_sub = -1;
@@ -365,6 +365,14 @@ static void gen_small_network(struct vf_rng *r)
 		pd[i].flof = vf_chance(r, 1, 2);
 		pd[i].nx26 = vf_chance(r, 1, 2) ? 0 : vf_range(r, 1, 2);
 		pd[i].x28 = vf_chance(r, 1, 3);
+		/* the other control bits of the header ("any Teletext packet"): newsflash, subtitle (the page is stored
+		 * under the subcode without these bits), suppress header, update, interrupted sequence, inhibit display */
+		pd[i].ctl = 0;
+		if (vf_chance(r, 1, 4)) pd[i].ctl |= vf_chance(r, 1, 2) ? CB(5) : CB(6);
+		if (vf_chance(r, 1, 10)) pd[i].ctl |= CB(7);
+		if (vf_chance(r, 1, 6)) pd[i].ctl |= CB(8);
+		if (vf_chance(r, 1, 10)) pd[i].ctl |= CB(9);
+		if (vf_chance(r, 1, 16)) pd[i].ctl |= CB(10);
 	}
 	/* one page is a carousel: its two subpages are as a rule sent one right after the other
 	 * (no other header of the magazine in between), and the carousel comes round again */
@@ -411,7 +419,8 @@ static void gen_small_network(struct vf_rng *r)
 		t->subno = pd[pi].nsub ? pd[pi].sub[si] : 0;
 		chain_sub = (!chained && pi == rot && i + 1 < ntx && vf_chance(r, 3, 4)) ? 1 - si : -1;
 		t->national = pd[pi].national;
-		t->ctl = net_serial ? CB(11) : 0;
+		t->ctl = (net_serial ? CB(11) : 0) | pd[pi].ctl;
+		if (pd[pi].ctl & (CB(5) | CB(6))) vf_count("transmissions_of_newsflash_or_subtitle_pages", 1);
 		mp = mp_find(t->pgno, t->subno);
 		if (mp ? vf_chance(r, 1, 3) : vf_chance(r, 1, 2)) t->ctl |= CB(4);
 		if (pi == hex_pi && mp && vf_chance(r, 2, 3)) t->ctl &= ~CB(4);     /* mostly without erasure: the cached rows are taken over */
@@ -512,6 +521,23 @@ static int byte_role(const struct ttx_pkt *p, int j)
 /* ------------------------------------------------------------------ */
 
 static struct snap S0, S1, SC, SA;
+/* the state right after the header of transmission sp_tx (fault-free prefix): what the cache held for that page
+   *before* this reception.  "keeps its earlier content" is judged against this, not only against the run without
+   the packet, which executes the same code and loses the earlier row in the same way when the earlier copy of
+   the page is not found (seeded C03-g: subtitle / newsflash pages) */
+static struct snap SP;
+static int sp_tx = -1;
+
+static const struct snap_page *earlier_copy(int tx)
+{
+	int k;
+	if (sp_tx != tx) {
+		run_stream(pks, txs[tx].hdr_pos + 1, NULL, &SP);
+		sp_tx = tx;
+	}
+	k = snap_find(&SP, txs[tx].pgno, txs[tx].subno);
+	return k >= 0 ? &SP.pg[k] : NULL;
+}
 static struct ttx_pkt f_work[F_SLOTS];
 static int f_have_s1;
 
@@ -564,6 +590,21 @@ static void run_faulted(int pi, const uint8_t mask[42], struct snap *out)
 	run_stream(f_work, n_pk, NULL, out);
 }
 
+static int row_shows_nothing(const vbi_char *x)
+{
+	int c;
+	for (c = 0; c < 40; c++) if (!uc_is_blank(x[c].unicode) || x[c].size != VBI_NORMAL_SIZE) return 0;
+	return 1;
+}
+
+/* a formatted row (an unformatted snapshot is all zero) with a visible character */
+static int row_shows_something(const vbi_char *x)
+{
+	int c;
+	for (c = 0; c < 40; c++) if (x[c].unicode > 0x20 && x[c].unicode != 0xA0 && !uc_is_blank(x[c].unicode) && !x[c].conceal) return 1;
+	return 0;
+}
+
 /* rule (b): text byte with a parity error */
 static const char *check_parity_rule(const struct snap *cur, int pi, int hdr_text)
 {
@@ -572,7 +613,9 @@ static const char *check_parity_rule(const struct snap *cur, int pi, int hdr_tex
 	const struct snap *alt = hdr_text ? &S0 : &S1;
 	int row = hdr_text ? 0 : p->row, k, l, r, c, cellwise = 0;
 	int prev_good = !hdr_text && (t->prev_rows & (1u << row));
+	const struct snap_page *bp = prev_good ? earlier_copy(p->tx) : NULL;
 
+	if (prev_good) vf_count(bp ? "parity_rows_with_earlier_copy_reference" : "parity_rows_earlier_copy_not_cached", 1);
 	if (snap_cmp_frame(cur, &S0, 0)) return "state";
 	for (k = 0; k < cur->nk; k++) {
 		const struct snap_page *a = &cur->pg[k], *b0 = &S0.pg[k], *b1;
@@ -589,7 +632,19 @@ static const char *check_parity_rule(const struct snap *cur, int pi, int hdr_tex
 			}
 			for (r = 0; r < 25; r++) {
 				const vbi_char *x = &a->text[l][r * 41], *y0 = &b0->text[l][r * 41], *y1 = &b1->text[l][r * 41];
-				if (!memcmp(x, y0, 41 * sizeof *x) || !memcmp(x, y1, 41 * sizeof *x)) continue;
+				if (!memcmp(x, y0, 41 * sizeof *x)) continue;
+				/* "the row keeps its earlier content": a good row was received before and the page
+				   showed something in it before this reception (prefix run), but now the row is
+				   completely blank.  The run without the packet cannot tell: it executes the same
+				   code and loses the earlier row the same way.  Only "completely blank" is judged
+				   against the earlier copy, cell contents are not: the earlier row is displayed
+				   with the attributes of the page as it is now (X/28, the row above). */
+				if (bp && r == row && l == 0 && row_shows_nothing(x) && row_shows_something(&bp->text[0][r * 41])) {
+					snprintf(f_why, sizeof f_why, "page %03x/%02x level %s: row %d is blank; before this reception the page showed text in that row (a good row was received before, erase flag clear), the fault-free run shows the new row",
+						 a->pgno, a->subno, f_level_name[l], r);
+					return "replaced-good-row";
+				}
+				if (!memcmp(x, y1, 41 * sizeof *x)) continue;
 				if (r != row && r != row + 1) {
 					snprintf(f_why, sizeof f_why, "page %03x/%02x level %s: row %d differs from both the fault-free run and the run without the packet", a->pgno, a->subno, f_level_name[l], r);
 					return "other-row";
@@ -604,9 +659,9 @@ static const char *check_parity_rule(const struct snap *cur, int pi, int hdr_tex
 					if (x[c].unicode == y0[c].unicode && x[c].size == y0[c].size) continue;
 					if (x[c].unicode == y1[c].unicode && x[c].size == y1[c].size) continue;
 					if (uc_is_blank(x[c].unicode) && !prev_good) continue;
-					snprintf(f_why, sizeof f_why, "page %03x/%02x level %s row %d col %d shows U+%04X size %d; fault-free U+%04X, %s U+%04X%s",
-						 a->pgno, a->subno, f_level_name[l], r, c, x[c].unicode, x[c].size, y0[c].unicode,
-						 hdr_text ? "-" : "earlier content", y1[c].unicode, prev_good ? " (a good row was received before)" : "");
+					snprintf(f_why, sizeof f_why, "page %03x/%02x level %s row %d col %d shows U+%04X size %d; fault-free U+%04X size %d, %s U+%04X size %d%s",
+						 a->pgno, a->subno, f_level_name[l], r, c, x[c].unicode, x[c].size, y0[c].unicode, y0[c].size,
+						 hdr_text ? "-" : (bp && r == row) ? "earlier content (page before this reception)" : "earlier content (run without the packet)", y1[c].unicode, y1[c].size, prev_good ? " (a good row was received before)" : "");
 					return uc_is_blank(x[c].unicode) ? "replaced-good-row" : "different-character";
 				}
 			}
@@ -678,6 +733,7 @@ static int run_faults(struct vf_rng *r, long idx)
 	if (pi >= n_pk) return 0;
 	p = &pks[pi];
 	f_have_s1 = 0;
+	sp_tx = -1;
 	run_stream(pks, n_pk, NULL, &S0);
 	if (pi == 0) {
 		vf_sample("transmission %ld: %s mode, %d page transmissions, %d packets, %d pages cached and %d events in the fault-free run",
